@@ -182,6 +182,23 @@ Definition logging_strip (r : RespHeaders.result) : RespHeaders.result :=
          end)
   end.
 
+(* the effect on the session cookie as the CLIENT sees it: the last Set-Cookie line carrying the session
+   cookie's name in the response it receives. It differs from what Authenticate did when the response
+   headers of the backend displace the proxy's Set-Cookie lines (http.TimeoutHandler assigns header values
+   key by key: a backend that sets any cookie replaces them; a 1xx response on a flush upstream clears them) *)
+Definition visible_session (cn : str) (r : RespHeaders.result) (eff : ProxyCore.cookie_effect) : ProxyCore.cookie_effect :=
+  match r with
+  | RespHeaders.NoResponse => ProxyCore.CNone
+  | RespHeaders.Resp _ h =>
+      match rev (filter (fun v => match v with
+                                  | RespHeaders.VCookie c => str_eqb (RespHeaders.ck_name c) cn
+                                  | RespHeaders.VStr _ => false end)
+                        (RespHeaders.hget RespHeaders.k_set_cookie h)) with
+      | RespHeaders.VCookie c :: _ => if RespHeaders.ck_empty c then ProxyCore.CCleared else eff
+      | _ => ProxyCore.CNone
+      end
+  end.
+
 Inductive route := RtFavicon | RtRobots | RtCerts | RtSignOut | RtCallback | RtAuth | RtProxy.
 (* oauthproxy.go:151-157, first match in registration order *)
 Definition route_of_path (p : str) : route :=
